@@ -101,7 +101,8 @@ def plan_world(rng, idx):
         r = rng.sub('w', i)
         mi = r.weighted([(0, 3), (1, 4), (2, 1), (3, 2)])
         spec = specs[mi]
-        ccfg = gcontent.ContentCfg(max_nodes=r.pick([1, 2, 3, 4, 5]), reifiable=r.pick([0.0, 0.3, 0.6]),
+        ccfg = gcontent.ContentCfg(max_nodes=r.weighted([(1, 3), (2, 3), (3, 3), (4, 3), (5, 3), (10, 1)]),
+                                   reifiable=r.pick([0.0, 0.3, 0.6]),
                                    reified_nodes=r.pick([0.0, 0.4]), p_none_target=0.02, avoid_ambiguous=True,
                                    p_inverted_attr=r.pick([0.0, 0.1, 0.3]),
                                    var_like_constants=r.pick([0.0, 0.2, 0.4]))
